@@ -6,20 +6,20 @@ CHOICE = "shexer.model.fixed_prop_choice_statement:FixedPropChoiceStatement"
 BASESER = "shexer.io.shex.formater.statement_serializers.base_statement_serializer:BaseStatementSerializer"
 CHOICESER = "shexer.io.shex.formater.statement_serializers.fixed_prop_choice_statement_serializer:FixedPropChoiceStatementSerializer"
 
-def install(kind=Str, prop=Str, text=Str):
-    FreqSer = schema("FreqSer", [
+def install(kind=Str, prop=Str, text=Str, suffix="", register=True):
+    FreqSer = schema("FreqSer" + suffix, [
         "shexer.io.shex.formater.statement_serializers.frequency_strategy.ratio_freq_serializer:RatioFreqSerializer",
         "shexer.io.shex.formater.statement_serializers.frequency_strategy.abs_freq_serializer:AbsFreqSerializer",
         "shexer.io.shex.formater.statement_serializers.frequency_strategy.mixed_frequency_strategy:MixedFrequencyStrategy"],
-        {"_decimals": Int})
-    StSer = schema("StSer", [BASESER, CHOICESER],
-        {"_instantiation_property_str": Str, "_disable_comments": Bool, "_is_inverse": Bool, "_frequency_serializer": FreqSer})
-    Statement = schema("Statement", [ST, CHOICE],
+        {"_decimals": Int, "_abs_strategy": "ignored", "_ratio_strategy": "ignored"}, register=register)
+    StSer = schema("StSer" + suffix, [BASESER, CHOICESER],
+        {"_instantiation_property_str": Str, "_disable_comments": Bool, "_is_inverse": Bool, "_frequency_serializer": FreqSer}, register=register)
+    Statement = schema("Statement" + suffix, [ST, CHOICE],
         {"_st_property": prop, "_st_type": Opt(kind), "_cardinality": Card, "_n_occurences": Int, "_probability": Real,
          "_serializer_object": Opt(StSer), "_comments": List(text), "_is_inverse": Bool, "_st_types": List(Opt(kind))},
         invariant=["implies(has_class(self, 'Statement'), self._st_type is not None)",
-                   "implies(is_int(self._cardinality), card_val(self._cardinality) >= 1)"])
-    Shape = schema("Shape", ["shexer.model.shape:Shape"],
+                   "implies(is_int(self._cardinality), card_val(self._cardinality) >= 1)"], register=register)
+    Shape = schema("Shape" + suffix, ["shexer.model.shape:Shape"],
         {"_name": kind, "_class_uri": kind, "_statements": List(Statement), "_n_instances": Int,
-         "_n_direct_statements": Int, "_n_inverse_statements": Int, "_sorting_callback": "ignored"})
+         "_n_direct_statements": Int, "_n_inverse_statements": Int, "_sorting_callback": "ignored"}, register=register)
     return {"FreqSer": FreqSer, "StSer": StSer, "Statement": Statement, "Shape": Shape}
